@@ -13,7 +13,7 @@ TECHNIQUE = 'property-based testing (Hypothesis): generated networks simulated w
 RULE = ('Generated network specs (2-8 junctions, thorough to 20; spanning tree + extra links giving loops and parallel '
         'links, 1-3 sources, tanks with links in either direction, pumps/valves/CV pipes, multi-category demands, '
         'pattern_start, demand multiplier, leaks on junctions and tanks, DD or PDD, report step = k*hyd or ALL, both '
-        'H-W approximations; one active valve in three gets a closed bypass pipe next to it). One WNTRSimulator run per case. Non-trivial = converged run with >= 2 reported steps and '
+        'H-W approximations; one active valve in three gets a closed bypass pipe next to it; one case in four has a further demand entry whose pattern does not repeat, as a fire flow). One WNTRSimulator run per case. Non-trivial = converged run with >= 2 reported steps and '
         'at least one of {loop, parallel pair, >= 2 sources, multi-demand junction, pattern_start != 0, active leak, '
         'link ending at a tank}; a quarter of the cases are judged on the rows of a history of the same model (run/reset/run again, '
         'or pause/continue with a new simulator object); distinct = SHA-1 of the spec.')
@@ -44,6 +44,15 @@ def strategy(draw, tier='quick'):
             a, b = (v['a'], v['b']) if draw(st.booleans()) else (v['b'], v['a'])
             spec['pipes'].append({'name': 'LB%d' % (k + 1), 'a': a, 'b': b, 'len': 50.0, 'diam': v['diam'], 'C': 100.0,
                                   'minor': 0.0, 'status': 'CLOSED', 'cv': False})
+    # a fire-flow-like demand: a further demand entry on one junction whose pattern does not repeat (wrap=False)
+    if draw(st.integers(0, 3)) == 0:
+        o = spec['opts']
+        n = draw(st.integers(2, 6))
+        k0 = draw(st.integers(0, n - 1))
+        spec['patterns']['FIRE'] = [1.0 if k0 <= k < k0 + 2 else 0.0 for k in range(n)]
+        spec['nowrap'] = ['FIRE']
+        j = spec['junctions'][draw(st.integers(0, len(spec['junctions']) - 1))]
+        j['demands'].append([draw(st.sampled_from([0.002, 0.01, 0.03])), 'FIRE', 'Fire_Flow'])
     # a quarter of the cases are judged on the rows of a small history of the same model: run / reset / run again (new or
     # same simulator object), or run to a pause point and continue with a new simulator object
     h = S.draw_history(draw, st, spec['opts'])
